@@ -152,6 +152,12 @@ def family_core():
     # POI elsewhere in the order / no POI
     add("poi:last", [channel("ch", sample("sig", 2, normfactor("zz")), sample("bkg", 2, normsys("a"), histosys("b", 2)))], poi="zz")
     add("poi:none", [channel("ch", sample("sig", 2, normfactor("zz")), sample("bkg", 2, normsys("a")))], poi=None)
+    # the POI is a one-bin bin-wise set that comes after a multi-bin one in the parameter order
+    add("poi:binwise", [channel("A", sample("b", 3, shapefactor("a_shape"), normsys("k"))),
+                        channel("B", sample("s", 1, shapefactor("mu_sf")), sample("b", 1, normsys("k")))], poi="mu_sf")
+    # two Poisson-constrained sets whose alphabetical order differs from their registration order (channel A first)
+    add("shapesys-order", [channel("A", sample("s", 2, normfactor()), sample("b", 2, shapesys("zz_unc", 2))),
+                           channel("B", sample("b", 1, shapesys("aa_unc", 1), normsys("k")))])
     # measurement-level overrides of auxdata / sigmas / factors
     add("override:normsys-aux", [channel("B", sample("s", 2, normfactor()), sample("b", 2, shapesys("zz", 2))),
                                  channel("A", sample("b", 2, shapesys("aa", 2), normsys("k")))],
